@@ -59,10 +59,18 @@ Matches(s) ==
     /\ \A i \in DOMAIN db : PVaa(db[i]) = LVaa(s.db[i])
     /\ DOMAIN loop = DOMAIN s.loop
     /\ \A d \in DOMAIN loop : loop[d] = s.loop[d]
-    /\ {POut(o) : o \in out} = {LOut(s.out[i]) : i \in 1..Len(s.out)}
-    /\ Cardinality(out) = Len(s.out)
-    /\ \A x \in {POut(o) : o \in out} :      \* same multiplicities (two entries may issue identical requests)
-          Cardinality({o \in out : POut(o) = x}) = Cardinality({i \in 1..Len(s.out) : LOut(s.out[i]) = x})
+    \* everything but re-observation requests: exactly the specification's outputs
+    /\ {POut(o) : o \in {x \in out : x.kind # "req"}} = {LOut(s.out[i]) : i \in {j \in 1..Len(s.out) : s.out[j].kind # "req"}}
+    /\ Cardinality({x \in out : x.kind # "req"}) = Cardinality({j \in 1..Len(s.out) : s.out[j].kind # "req"})
+    \* re-observation requests are posted without blocking: when the outbound queue had `reqfree` free slots, that
+    \* many of the requests the specification issues got through (which ones is the code's iteration order); two
+    \* entries may issue identical requests, so multiplicities are compared
+    /\ LET specReq == {x \in out : x.kind = "req"}
+           logReq  == {j \in 1..Len(s.out) : s.out[j].kind = "req"}
+           free    == IF "reqfree" \in DOMAIN s THEN s.reqfree ELSE Cardinality(specReq)
+       IN /\ Cardinality(logReq) = (IF Cardinality(specReq) <= free THEN Cardinality(specReq) ELSE free)
+          /\ \A x \in {POut(o) : o \in specReq} \cup {LOut(s.out[j]) : j \in logReq} :
+                Cardinality({j \in logReq : LOut(s.out[j]) = x}) <= Cardinality({o \in specReq : POut(o) = x})
     /\ \A i \in 1..Len(s.out) : s.out[i].kind = "obs" => s.out[i].midok
 
 ResetState ==
